@@ -15,10 +15,14 @@ Record flip_aware {V B} {M : MatOps V B} (ok : B -> Prop) : Prop := {
   fa_entry : forall b i j a c, ok b -> i < bsize b -> j < bsize b -> a < bsize b -> c < bsize b ->
                bentry (bflip i j b) a c = bentry b (tr i j a) (tr i j c);
   fa_row   : forall b k a e, ok b -> k < bsize b -> e <= bsize b ->
-               browf b k a e = map (bentry b k) (seq a (e - a));
-  fa_mat   : forall b, ok b ->
-               bmat b = map (fun i => map (bentry b i) (seq 0 (bsize b))) (seq 0 (bsize b))
+               browf b k a e = map (bentry b k) (seq a (e - a))
 }.
+
+(* matrix(storage) of the base state b writes the table of its entries.  (Not a law of every state of
+   every class: KernelMatrix::matrix computes from the dataset in its ORIGINAL order and ignores the
+   flips, so for KernelMatrix / Regularized / Modified it holds for unflipped states only.) *)
+Definition mat_ok {V B} {M : MatOps V B} (b : B) : Prop :=
+  bmat b = map (fun i => map (bentry b i) (seq 0 (bsize b))) (seq 0 (bsize b)).
 
 Lemma tot_zero {A} (l : list (list A)) :
   (forall k, k < length l -> nth k l [] = []) -> tot l = 0.
@@ -982,7 +986,16 @@ Proof.
   apply G; [exact OK0|reflexivity|apply seq_length|apply Permutation_refl|apply under_init].
 Qed.
 
-(* ---- PrecomputedMatrix<Matrix> over the flip-aware base ---- *)
+End Composed.
+
+(* ---- PrecomputedMatrix<Matrix> over a base whose matrix() is correct at construction time; the
+        base is never consulted again, so no law about its flips is needed ---- *)
+Section Precomp.
+Context {Vt Bt : Type} {MO : MatOps Vt Bt}.
+Variable b0 : Bt.
+Hypothesis MAT0 : mat_ok b0.
+Local Notation n := (bsize b0).
+
 Definition square (m : list (list Vt)) : Prop := length m = n /\ forall r, r < n -> length (nth r m []) = n.
 
 Lemma pm_flip_square i j m : square m -> i < n -> j < n -> square (pm_flip i j m).
@@ -1006,7 +1019,7 @@ Qed.
 
 Lemma pm_init_square : square (pm_init b0) /\ forall a c, a < n -> c < n -> pm_entry (pm_init b0) a c = bentry b0 a c.
 Proof.
-  unfold pm_init, square, pm_entry. rewrite (fa_mat ok FA) by auto.
+  unfold pm_init, square, pm_entry. pose proof MAT0 as E0. unfold mat_ok in E0. rewrite E0. clear E0.
   assert (R : forall r, r < n -> nth r (map (fun i => map (bentry b0 i) (seq 0 n)) (seq 0 n)) [] = map (bentry b0 r) (seq 0 n)).
   { intros r Hr. apply (nth_map_seq (fun i => map (bentry b0 i) (seq 0 n))). exact Hr. }
   split; [split|].
@@ -1073,4 +1086,4 @@ Proof.
   rewrite (tot_const m n) by (rewrite L; exact R). rewrite L. reflexivity.
 Qed.
 
-End Composed.
+End Precomp.
